@@ -212,17 +212,20 @@ def translate_pattern(pattern: str, flags: int = 0, xsd_version: str = '1.0',
             if pos >= pattern_len:
                 regex.append('\\')
             elif pattern[pos].isdigit():
-                regex.append('\\%s' % pattern[pos])
                 reference = DIGITS_PATTERN.match(pattern[pos:]).group()  # type: ignore[union-attr]
-                if len(reference) > 1:
-                    k = 0
-                    for k in range(1, len(reference)):
-                        if total_groups < int(reference[:k + 1]):
-                            regex.append('[%s]' % pattern[pos + k])
-                            break
-                        else:
-                            regex.append(pattern[pos + k])
-                    pos += k  # pragma: no cover
+                k = 1
+                while k < len(reference) and int(reference[:k + 1]) <= total_groups:
+                    k += 1
+
+                # Without anchors the pattern is enclosed in a capturing group,
+                # that shifts the numbers of the pattern's own groups by one.
+                number = reference[:k]
+                regex.append('\\%s' % (number if anchors else int(number) + 1))
+                if k < len(reference):
+                    # A digit that is not part of the group number
+                    regex.append('[%s]' % reference[k])
+                    k += 1
+                pos += k - 1
             elif pattern[pos] == 'i':
                 regex.append('[%s]' % I_SHORTCUT_REPLACE)
             elif pattern[pos] == 'I':
